@@ -51,6 +51,7 @@ def _iterate_calc_tree_and_ground(
                 name=lifted_function.name,
                 signature=grounded_signature,
                 repeating_variables=repeating_arguments,
+                arguments=grounded_arguments,
             )
             return AnyNode(id=str(grounded_function), value=grounded_function)
 
